@@ -223,6 +223,22 @@ def search(ctx, disagreements):
 def replay(payload):
     case = Case.from_json(payload["case"])
     cfg = ruleprops.cfg_from_json(payload["cfg"])
+    if cfg.get("mode") is not None and "rule" not in cfg or str(payload.get("sig", {}).get("rule", "")).startswith("wrapper:"):
+        # a violation of the wrapper stream: re-run the wrapper and re-judge its outcomes
+        from . import C09
+
+        built = rules.Built(case, multi=cfg.get("multi", False))
+        try:
+            out = C09.run_wrapper(case, cfg, built)
+        except Exception as e:  # noqa: BLE001
+            return False, f"still fails: wrapper raised {e!r}"
+        init_ids = set(case.ids(cfg.get("init") or []))
+        for o in ([out] if cfg["res"] else list(out)):
+            W = [case.rank[p.name] for p in o]
+            cost = sum((case.cost[case.names[i]] for i in W), F(0))
+            if len(set(W)) != len(W) or not init_ids <= set(W) or cost > case.budget:
+                return False, f"still fails: wrapper outcome {sorted(W)} (cost {cost}, budget {case.budget})"
+        return True, "the wrapper's outcomes are feasible extensions of the initial allocation on the replayed input"
     built = rules.Built(case, multi=cfg.get("multi", False))
     rulegen.fix_loads(cfg, built)
     ans, raw = rules.impl_answer(built, cfg)
